@@ -37,7 +37,12 @@ impl<'a, T> Iterator for AxisIter<'a, T> {
     }
 
     fn size_hint(&self) -> (usize, Option<usize>) {
-        let n = self.array.shape[self.axis.0] - self.index;
+        // An axis that does not exist has no views, as in `next`
+        let n = self
+            .array
+            .shape
+            .get(self.axis.0)
+            .map_or(0, |n| n - self.index);
         (n, Some(n))
     }
 }
